@@ -850,3 +850,155 @@ package command
 //@   props C01 C13 C02 C03 C18
 //@   observe io.ReadAll
 //@   entry row read: [call io.ReadAll(bind_in) as (d, e)] when isptr(in, os.File) && asptr(in, os.File) == os.Stdin && data == d && err == e -> exit
+
+// ---------------------------------------------------------------------------------------------
+// command-line flags: every flag is bound to its own option field under its documented name (and short name), the
+// embedded option groups register theirs first; defaults that are plain constants are pinned too
+//@ func (*arpCmdOpts).initCliFlags
+//@   props C02 C14 C15 C16 C17 C19
+//@   modifies o.json, o.rawInterface, o.srcIP, o.rawSrcMAC, o.rawExcludeFile, o.rawRateLimit, o.exitDelay, o.liveTimeout
+//@   observe DurationVar
+//@   entry row flags: [call (*packetScanCmdOpts).initCliFlags(_, cmd) ;
+//@                     call DurationVar(_, addr(o.liveTimeout), "live", 0, _)] -> exit
+//@ func (*packetScanCmdOpts).initCliFlags
+//@   props C02 C14 C15 C16 C17
+//@   modifies o.json, o.rawInterface, o.srcIP, o.rawSrcMAC, o.rawExcludeFile, o.rawRateLimit, o.exitDelay
+//@   observe BoolVar, DurationVar, IPVar, StringVar, StringVarP
+//@   entry row flags: [call BoolVar(_, addr(o.json), "json", false, _) ;
+//@                     call StringVarP(_, addr(o.rawInterface), "iface", "i", "", _) ;
+//@                     call IPVar(_, addr(o.srcIP), "srcip", _, _) ;
+//@                     call StringVar(_, addr(o.rawSrcMAC), "srcmac", "", _) ;
+//@                     call StringVar(_, addr(o.rawExcludeFile), "exclude", "", _) ;
+//@                     call StringVarP(_, addr(o.rawRateLimit), "rate", "r", "", _) ;
+//@                     call DurationVar(_, addr(o.exitDelay), "exit-delay", defaultExitDelay, _)] -> exit
+//@ func (*ipScanCmdOpts).initCliFlags
+//@   props C01 C02 C11 C13 C14 C15 C16 C17
+//@   modifies o.json, o.rawInterface, o.srcIP, o.rawSrcMAC, o.rawExcludeFile, o.rawRateLimit, o.exitDelay, o.rawGatewayMAC, o.ipFile, o.arpCacheFile
+//@   observe StringVar, StringVarP
+//@   entry row flags: [call (*packetScanCmdOpts).initCliFlags(_, cmd) ;
+//@                     call StringVar(_, addr(o.rawGatewayMAC), "gwmac", "", _) ;
+//@                     call StringVarP(_, addr(o.ipFile), "file", "f", "", _) ;
+//@                     call StringVarP(_, addr(o.arpCacheFile), "arp-cache", "a", "", _)] -> exit
+//@ func (*ipPortScanCmdOpts).initCliFlags
+//@   props C01 C02 C11 C13 C14 C15 C16 C17 C18
+//@   modifies o.json, o.rawInterface, o.srcIP, o.rawSrcMAC, o.rawExcludeFile, o.rawRateLimit, o.exitDelay, o.rawGatewayMAC, o.ipFile, o.arpCacheFile, o.rawPortRanges, o.portFile
+//@   observe StringVar, StringVarP
+//@   entry row flags: [call (*ipScanCmdOpts).initCliFlags(_, cmd) ;
+//@                     call StringVarP(_, addr(o.rawPortRanges), "ports", "p", "", _) ;
+//@                     call StringVar(_, addr(o.portFile), "ports-file", "", _)] -> exit
+//@ func (*genericScanCmdOpts).initCliFlags
+//@   props C01 C02 C08 C13 C14 C15 C16 C18
+//@   modifies o.json, o.rawPortRanges, o.portFile, o.ipFile, o.workers, o.rawExcludeFile, o.rawRateLimit, o.exitDelay
+//@   observe BoolVar, DurationVar, IntVarP, StringVar, StringVarP
+//@   entry row flags: [call BoolVar(_, addr(o.json), "json", false, _) ;
+//@                     call StringVarP(_, addr(o.rawPortRanges), "ports", "p", "", _) ;
+//@                     call StringVar(_, addr(o.portFile), "ports-file", "", _) ;
+//@                     call StringVarP(_, addr(o.ipFile), "file", "f", "", _) ;
+//@                     call IntVarP(_, addr(o.workers), "workers", "w", defaultWorkerCount, _) ;
+//@                     call StringVar(_, addr(o.rawExcludeFile), "exclude", "", _) ;
+//@                     call StringVarP(_, addr(o.rawRateLimit), "rate", "r", "", _) ;
+//@                     call DurationVar(_, addr(o.exitDelay), "exit-delay", defaultExitDelay, _)] -> exit
+//@ func (*dockerCmdOpts).initCliFlags
+//@   props C01 C02 C08 C09 C10 C13 C14 C15 C16 C18
+//@   modifies o.json, o.rawPortRanges, o.portFile, o.ipFile, o.workers, o.rawExcludeFile, o.rawRateLimit, o.exitDelay, o.timeout, o.proto
+//@   observe DurationVarP, StringVar
+//@   entry row flags: [call (*genericScanCmdOpts).initCliFlags(_, cmd) ;
+//@                     call DurationVarP(_, addr(o.timeout), "timeout", "t", defaultTimeout, _) ;
+//@                     call StringVar(_, addr(o.proto), "proto", _, _)] -> exit
+//@ func (*elasticCmdOpts).initCliFlags
+//@   props C01 C02 C08 C09 C10 C13 C14 C15 C16 C18
+//@   modifies o.json, o.rawPortRanges, o.portFile, o.ipFile, o.workers, o.rawExcludeFile, o.rawRateLimit, o.exitDelay, o.timeout, o.proto
+//@   observe DurationVarP, StringVar
+//@   entry row flags: [call (*genericScanCmdOpts).initCliFlags(_, cmd) ;
+//@                     call DurationVarP(_, addr(o.timeout), "timeout", "t", defaultTimeout, _) ;
+//@                     call StringVar(_, addr(o.proto), "proto", _, _)] -> exit
+//@ func (*icmpCmdOpts).initCliFlags
+//@   props C01 C02 C05 C11 C13 C14 C15 C16 C17
+//@   modifies o.json, o.rawInterface, o.srcIP, o.rawSrcMAC, o.rawExcludeFile, o.rawRateLimit, o.exitDelay, o.rawGatewayMAC, o.ipFile, o.arpCacheFile, o.ipTTL, o.ipProtocol, o.rawIPFlags, o.ipTotalLen, o.icmpType, o.icmpCode, o.rawICMPPayload
+//@   observe StringVar, StringVarP, Uint16Var, Uint8Var, Uint8VarP
+//@   entry row flags: [call (*ipScanCmdOpts).initCliFlags(_, cmd) ;
+//@                     call Uint8Var(_, addr(o.ipTTL), "ttl", 64, _) ;
+//@                     call Uint8Var(_, addr(o.ipProtocol), "ipproto", 1, _) ;
+//@                     call StringVar(_, addr(o.rawIPFlags), "ipflags", _, _) ;
+//@                     call Uint16Var(_, addr(o.ipTotalLen), "iplen", 0, _) ;
+//@                     call Uint8VarP(_, addr(o.icmpType), "type", "t", 8, _) ;
+//@                     call Uint8VarP(_, addr(o.icmpCode), "code", "c", 0, _) ;
+//@                     call StringVarP(_, addr(o.rawICMPPayload), "payload", "p", "", _)] -> exit
+//@ func (*socksCmdOpts).initCliFlags
+//@   props C01 C02 C08 C09 C10 C13 C14 C15 C16 C18
+//@   modifies o.json, o.rawPortRanges, o.portFile, o.ipFile, o.workers, o.rawExcludeFile, o.rawRateLimit, o.exitDelay, o.timeout
+//@   observe DurationVarP
+//@   entry row flags: [call (*genericScanCmdOpts).initCliFlags(_, cmd) ;
+//@                     call DurationVarP(_, addr(o.timeout), "timeout", "t", _, _)] -> exit
+//@ func (*tcpFlagsCmdOpts).initCliFlags
+//@   props C01 C02 C03 C05 C11 C13 C14 C15 C16 C17 C18
+//@   modifies o.json, o.rawInterface, o.srcIP, o.rawSrcMAC, o.rawExcludeFile, o.rawRateLimit, o.exitDelay, o.rawGatewayMAC, o.ipFile, o.arpCacheFile, o.rawPortRanges, o.portFile, o.rawTCPFlags
+//@   observe StringVar
+//@   entry row flags: [call (*ipPortScanCmdOpts).initCliFlags(_, cmd) ;
+//@                     call StringVar(_, addr(o.rawTCPFlags), "flags", "", _)] -> exit
+//@ func (*udpCmdOpts).initCliFlags
+//@   props C01 C02 C05 C11 C13 C14 C15 C16 C17 C18
+//@   modifies o.json, o.rawInterface, o.srcIP, o.rawSrcMAC, o.rawExcludeFile, o.rawRateLimit, o.exitDelay, o.rawGatewayMAC, o.ipFile, o.arpCacheFile, o.rawPortRanges, o.portFile, o.ipTTL, o.ipProtocol, o.rawIPFlags, o.ipTotalLen, o.rawUDPPayload
+//@   observe StringVar, Uint16Var, Uint8Var
+//@   entry row flags: [call (*ipPortScanCmdOpts).initCliFlags(_, cmd) ;
+//@                     call Uint8Var(_, addr(o.ipTTL), "ttl", 64, _) ;
+//@                     call Uint8Var(_, addr(o.ipProtocol), "ipproto", 17, _) ;
+//@                     call StringVar(_, addr(o.rawIPFlags), "ipflags", _, _) ;
+//@                     call Uint16Var(_, addr(o.ipTotalLen), "iplen", 0, _) ;
+//@                     call StringVar(_, addr(o.rawUDPPayload), "payload", "", _)] -> exit
+
+// command constructors: the command's action is this command's own RunE closure over this command object, the
+// flags are registered on the cobra command that is returned
+//@ func newARPCmd
+//@   props C01 C02 C03 C05 C11 C13 C14 C15 C16 C17 C19
+//@   modifies nothing
+//@   entry row build: [call initCliFlags(_, bind_cmd)] when ret != nil && fresh(ret) && fresh(cmd) && ret.cmd == cmd && closureof(cmd.RunE, "newARPCmd$1") && capt(cmd.RunE, "c") == ret -> exit
+//@ func newICMPCmd
+//@   props C01 C02 C03 C05 C11 C13 C14 C15 C16 C17
+//@   modifies nothing
+//@   entry row build: [call initCliFlags(_, bind_cmd)] when ret != nil && fresh(ret) && fresh(cmd) && ret.cmd == cmd && closureof(cmd.RunE, "newICMPCmd$1") && capt(cmd.RunE, "c") == ret -> exit
+//@ func newUDPCmd
+//@   props C01 C02 C03 C05 C11 C13 C14 C15 C16 C17
+//@   modifies nothing
+//@   entry row build: [call initCliFlags(_, bind_cmd)] when ret != nil && fresh(ret) && fresh(cmd) && ret.cmd == cmd && closureof(cmd.RunE, "newUDPCmd$1") && capt(cmd.RunE, "c") == ret -> exit
+//@ func newTCPFlagsCmd
+//@   props C01 C02 C03 C05 C11 C13 C14 C15 C16 C17
+//@   modifies nothing
+//@   entry row build: [call initCliFlags(_, bind_cmd)] when ret != nil && fresh(ret) && fresh(cmd) && ret.cmd == cmd && closureof(cmd.RunE, "newTCPFlagsCmd$1") && capt(cmd.RunE, "c") == ret -> exit
+//@ func newTCPSYNCmd
+//@   props C01 C02 C03 C05 C11 C13 C14 C15 C16 C17
+//@   modifies nothing
+//@   entry row build: [call initCliFlags(_, bind_cmd)] when ret != nil && fresh(ret) && fresh(cmd) && ret.cmd == cmd && closureof(cmd.RunE, "newTCPSYNCmd$1") && capt(cmd.RunE, "c") == ret -> exit
+//@ func newTCPFINCmd
+//@   props C01 C02 C03 C05 C11 C13 C14 C15 C16 C17
+//@   modifies nothing
+//@   entry row build: [call initCliFlags(_, bind_cmd)] when ret != nil && fresh(ret) && fresh(cmd) && ret.cmd == cmd && closureof(cmd.RunE, "newTCPFINCmd$1") && capt(cmd.RunE, "c") == ret -> exit
+//@ func newTCPNULLCmd
+//@   props C01 C02 C03 C05 C11 C13 C14 C15 C16 C17
+//@   modifies nothing
+//@   entry row build: [call initCliFlags(_, bind_cmd)] when ret != nil && fresh(ret) && fresh(cmd) && ret.cmd == cmd && closureof(cmd.RunE, "newTCPNULLCmd$1") && capt(cmd.RunE, "c") == ret -> exit
+//@ func newTCPXmasCmd
+//@   props C01 C02 C03 C05 C11 C13 C14 C15 C16 C17
+//@   modifies nothing
+//@   entry row build: [call initCliFlags(_, bind_cmd)] when ret != nil && fresh(ret) && fresh(cmd) && ret.cmd == cmd && closureof(cmd.RunE, "newTCPXmasCmd$1") && capt(cmd.RunE, "c") == ret -> exit
+//@ func newSocksCmd
+//@   props C01 C02 C08 C13 C14 C15 C16 C09
+//@   modifies nothing
+//@   entry row build: [call initCliFlags(_, bind_cmd)] when ret != nil && fresh(ret) && fresh(cmd) && ret.cmd == cmd && closureof(cmd.RunE, "newSocksCmd$1") && capt(cmd.RunE, "c") == ret -> exit
+//@ func newDockerCmd
+//@   props C01 C02 C08 C13 C14 C15 C16 C10
+//@   modifies nothing
+//@   entry row build: [call initCliFlags(_, bind_cmd)] when ret != nil && fresh(ret) && fresh(cmd) && ret.cmd == cmd && closureof(cmd.RunE, "newDockerCmd$1") && capt(cmd.RunE, "c") == ret -> exit
+//@ func newElasticCmd
+//@   props C01 C02 C08 C13 C14 C15 C16 C10
+//@   modifies nothing
+//@   entry row build: [call initCliFlags(_, bind_cmd)] when ret != nil && fresh(ret) && fresh(cmd) && ret.cmd == cmd && closureof(cmd.RunE, "newElasticCmd$1") && capt(cmd.RunE, "c") == ret -> exit
+
+// the root command offers every scan: tcp (flags) with its four sub-scans, then arp, icmp, udp, tcp, socks, docker, elastic
+//@ func newRootCmd
+//@   props C01 C03 C08
+//@   observe AddCommand
+//@   entry row tree: [call newTCPFlagsCmd() as (t) ; call newTCPSYNCmd() as (s1) ; call newTCPFINCmd() as (s2) ; call newTCPNULLCmd() as (s3) ; call newTCPXmasCmd() as (s4) ; call AddCommand(t.cmd, bind_sub) ;
+//@                    call newARPCmd() as (a) ; call newICMPCmd() as (i) ; call newUDPCmd() as (u) ; call newSocksCmd() as (so) ; call newDockerCmd() as (d) ; call newElasticCmd() as (e) ; call AddCommand(ret, bind_top)]
+//@                      when atcall(sub, len(sub) == 4 && sub[0] == s1.cmd && sub[1] == s2.cmd && sub[2] == s3.cmd && sub[3] == s4.cmd)
+//@                        && atcall(top, len(top) == 7 && top[0] == a.cmd && top[1] == i.cmd && top[2] == u.cmd && top[3] == t.cmd && top[4] == so.cmd && top[5] == d.cmd && top[6] == e.cmd) -> exit
